@@ -681,6 +681,9 @@ func execOpCase(c *Case) []ModeResult {
 	if r := execTiled(c); r != nil {
 		out = append(out, *r)
 	}
+	if r := execPadded(c); r != nil {
+		out = append(out, *r)
+	}
 	if c.Repeat > 1 {
 		// an operator is a function of its operands: the same case, executed again and again on fresh instances and fresh
 		// tensors, returns the same bits every time (whichever of several allowed values it is)
